@@ -67,11 +67,13 @@ def run(ctx):
         # 3. code -> spec: long seeded random call sequences, logged per back-end, validated by KVTrace.tla
         ntr, depth = (20, 60) if quick else (300, 150)
         validated = 0
-        for values in (["small"] if quick else ["small", "large"]):
+        # "versions": not random - EVERY write history of length <= 3 (4) on one key (direct / through a batch; put of two values,
+        # delete), then compaction, then get / has / iterate: the engine's internal versions and tombstones must stay invisible
+        for values in (["small", "versions"] if quick else ["small", "large", "versions"]):
             d = dbdir / ("rand-" + values); d.mkdir()
             tr = ctx.work / ("kvtrace-%s.ndjson" % values)
-            p = vlib.run([drv, "random", "-seed", ctx.seed, "-n", ntr, "-depth", depth, "-out", tr, "-dir", d,
-                          "-values", values, "-nvals", 5], timeout=3000, check=True)
+            margs = ["-n", ntr, "-depth", depth, "-values", values] if values != "versions" else ["-versions", 3 if quick else 4, "-values", "small"]
+            p = vlib.run([drv, "random", "-seed", ctx.seed, "-out", tr, "-dir", d, "-nvals", 5] + margs, timeout=3000, check=True)
             info = json.loads(p.stdout.strip().splitlines()[-1])
             tdir = ctx.sub("tlc-KVTrace-" + values)
             t = vlib.tlc(ctx, "KVTrace", "KVTrace.cfg", workers=1, timeout=3000, tag="KVTrace-" + values,
@@ -96,6 +98,17 @@ def run(ctx):
             if not samples or len(samples) < 3:
                 rows = vlib.read_ndjson(tr)
                 samples.append({"implementation_trace_prefix": rows[1:8]})
+        # 4. BWrite is ONE step of KV.tla: concurrent readers must never see part of a committed batch (sequential replay cannot tell)
+        d = dbdir / "atomic"; d.mkdir()
+        p = vlib.run([drv, "atomic", "-dir", d, "-keys", 20000, "-rounds", 12 if quick else 60], timeout=3000, check=True)
+        aj = json.loads(p.stdout.strip().splitlines()[-1])
+        for r in aj["results"]:
+            if r["pair_reads"] < 100 or r["iter_reads"] < 3:
+                raise Broken("atomicity probe hardly read anything on %s: %s" % (r["backend"], r))
+            if r["torn_pairs"] or r["torn_iterators"] or r["final_bad"]:
+                vlib.report(ctx, {"kind": "batch-not-atomic", "backend": r["backend"]}, {"probe": r, "cmd": "kvdrv atomic -keys 20000 -rounds %d" % aj["rounds"]})
+        cov.update(atomicity_probe={r["backend"]: {"pair_reads": r["pair_reads"], "iterator_reads": r["iter_reads"]} for r in aj["results"]})
+        shutil.rmtree(d, ignore_errors=True)
         cov.update(traces_validated_against_impl=validated + (nbeh * len(BACKENDS) if not ctx.violations else 0),
                    random_traces_validated_by_TLC=validated, samples=samples, exhaustive=True,
                    rule="every transition of the bounded KV state graph (TLC, %s) replayed on each back-end with the spec's "
